@@ -81,6 +81,26 @@ pub fn input_class(xml: &str) -> Option<&'static str> {
     }
 }
 
+/// the signature of a panic: panics in sessions that never set the rules directory (documented precondition violated)
+/// are kept apart; clean-up of degenerate / inconsistent / schema-invalid input has a long tail of panic sites with one
+/// family of root causes (see C01/C02), such panics are named after the input class -- unless the panic site is itself
+/// a listed finding, which keeps its own name
+pub fn name_panic(p: &PanicInfo, rules_dir_set: bool, op: &Op, cur_class: Option<&'static str>) -> String {
+    let mut sig = if rules_dir_set { p.signature() } else { format!("pre-rules:{}", p.signature()) };
+    static KNOWN: std::sync::OnceLock<Vec<KnownFinding>> = std::sync::OnceLock::new();
+    let known = KNOWN.get_or_init(load_known_findings);
+    if known_match(known, "C08", &sig).is_some() {
+    } else if let Op::SetMathml(x) = op {
+        if let Some(c) = input_class(x) {
+            sig = format!("set_mathml-panic:trigger:{}", c);
+        }
+    } else if let Some(c) = cur_class {
+        // the stored expression came from such an input: its canonical form may already be malformed (C02)
+        sig = format!("panic-on-expression:trigger:{}", c);
+    }
+    sig
+}
+
 impl C08 {
     fn eval_history(&self, case: &Case) -> Outcome {
         let mut classes: Vec<String> = vec![];
@@ -107,21 +127,7 @@ impl C08 {
             match &r {
                 OpResult::Panic(p) => {
                     // panics in sessions that never set the rules directory (documented precondition violated) are kept apart
-                    let mut sig = if interp.rules_dir_set { p.signature() } else { format!("pre-rules:{}", p.signature()) };
-                    // clean-up of degenerate / inconsistent / schema-invalid input has a long tail of panic sites with
-                    // one family of root causes (see C01/C02): such panics are named after the input class
-                    // (a panic site that is itself a listed finding keeps its own name)
-                    static KNOWN: std::sync::OnceLock<Vec<KnownFinding>> = std::sync::OnceLock::new();
-                    let known = KNOWN.get_or_init(load_known_findings);
-                    if known_match(known, "C08", &sig).is_some() {
-                    } else if let Op::SetMathml(x) = op {
-                        if let Some(c) = input_class(x) {
-                            sig = format!("set_mathml-panic:trigger:{}", c);
-                        }
-                    } else if let Some(c) = cur_class {
-                        // the stored expression came from such an input: its canonical form may already be malformed (C02)
-                        sig = format!("panic-on-expression:trigger:{}", c);
-                    }
+                    let sig = name_panic(p, interp.rules_dir_set, op, cur_class);
                     viols.push((sig, format!("{} panicked: {} at {}\ntranscript:\n  {}", op.kind(), p.msg, p.loc, transcript.join("\n  "))));
                     break 'outer;
                 }
